@@ -377,6 +377,12 @@ def alphabet(world, seqbase, thorough):
 
     add(R.REQUEST, fresh(), (3, V(())), h="getroot", name=None)
     add(R.REQUEST, fresh(), (1, V(("x",))), h="ping", name=None)
+    # references of the peer's own whose TYPE NAME points into modules the victim has not imported: whatever the victim does to
+    # make a proxy for them (it asks the peer what the class looks like - answered), it must not import anything
+    for modname in ("colorsys.Color", "xml.dom.minidom.Node", "json.tool.main", "nosuchmodule_c07.X"):
+        for strat in (("adaptive", "_private"), None):
+            add(R.REQUEST, fresh(), (1, T(RP.mine((modname, 8101, 8102)))), h="ping", name="<ref of type %s>" % modname, strategy=strat)
+            add(R.REQUEST, fresh(), (1, T(RP.mine((modname, 8103, 0)))), h="ping", name="<class ref %s>" % modname, strategy=strat)
     for role, idp in sorted(world.pool.items()):
         legit = idp in world.legit
         for label, boxf in ((3, RP.yours), (4, RP.mine)):
